@@ -14,4 +14,4 @@ package types
 //@   ensures[C14.dropped_rule] result == (res.Code != 0 && !(exists j int :: {res.Events[j].Type} 0 <= j && j < len(res.Events) && res.Events[j].Type == EventTypeEthereumTx))
 //@   panics[C14.dropped_never_panics] never
 //@ loop 1
-//@   invariant -1 <= rangeindex && rangeindex < len(res.Events) && (forall j int :: {res.Events[j].Type} (0 <= j && j <= rangeindex) ==> res.Events[j].Type != EventTypeEthereumTx)
+//@   invariant[C14.dropped_loop] -1 <= rangeindex && rangeindex < len(res.Events) && (forall j int :: {res.Events[j].Type} (0 <= j && j <= rangeindex) ==> res.Events[j].Type != EventTypeEthereumTx)
